@@ -333,7 +333,7 @@ CHECKS = {
                 "sequential add_vector of a prefix (1/5 duplicate vectors, 1/8 duplicate ids), complete_sequential_inserts, parallel_insert_batch of the rest up to capacity, one batch and one insert beyond capacity, inserts and searches with dimension +-1 / +3 / empty; "
                 "3 (30 under ASan) searches with k in {1,2,3,10,1000,10000} and ef in {default,1,k,64 or 10000,1..40}, each repeated with a cancellation flag already set or not; in 2/3 of the rows two reader threads (3 searches each, shared cancellation flag), a thread that sets the flag after a PRNG number of reader steps and a writer thread inserting under the write lock. "
                 "Miri rows: one build per kernel family selected by compile-time target features (sse2 baseline; +avx2,+fma; +avx512f,+avx2,+fma -- Miri reports exactly these as detected, the workload prints and the runner checks the selected family), schedule seed per process, preemption rate 0.1. ASan rows: native release build, best kernel of the machine. "
-                "Violation: any Miri undefined-behaviour / data-race report, any AddressSanitizer report, or a search result whose id was never inserted / is duplicated / whose distance differs from the f64 reference. evaluations = rows completed. distinct_nontrivial = distinct (kernel row, dimension) pairs.",
+                "Each row also offers malformed batches (first element too short / too long / 1 lane) to the still empty index. Violation: any Miri undefined-behaviour / data-race report, any AddressSanitizer report, a bounds-check panic inside simd.rs / ann_backend.rs / hnsw_index.rs (an out-of-bounds access that was attempted and stopped), or a search result whose id was never inserted / is duplicated / whose distance differs from the f64 reference. evaluations = rows completed. distinct_nontrivial = distinct (kernel row, dimension) pairs.",
         "assumptions": ["the scalar kernel cannot be selected on x86_64 (sse2 is always detected) and is not run", "natively only the best kernel of this machine (AVX-512) runs under ASan; the lower families run under Miri only, at small sizes",
                         "a Miri 'unsupported operation' in a kernel row is reported as 'row not run', never as a violation", "the input/configuration part of this property is input generation under an instrumented executor; simulation contributes the seeded interleaving of readers, writer and cancellation"],
         "expected_probes": [],
